@@ -237,7 +237,7 @@ fn op_strategy(texts: Vec<String>) -> impl Strategy<Value = Op> {
     .prop_map(move |op| { let _ = &texts2; op })
 }
 
-fn case_strategy() -> impl Strategy<Value = ReuseCase> {
+pub fn case_strategy() -> impl Strategy<Value = ReuseCase> {
     (
         gen::model_case(ModelCfg { min_texts: 2, ..ModelCfg::TAGGED }),
         gen::model_case(ModelCfg::TAGGED),
@@ -336,7 +336,7 @@ pub fn test_threads(case: &ThreadCase, n_threads: usize) -> TestResult {
 
 pub fn run(rep: &mut Report) {
     assert_send_sync::<Predictor>();
-    let n = rep.n(5000, 150000);
+    let n = rep.n(25000, 250000);
     rep.run_prop(
         "histories",
         "two generated models A, B -> six predictors (no tags / tags / tags + score storing); \
@@ -352,7 +352,7 @@ tag state behind or contains a failed update.",
         test_case,
     );
     let threads = if rep.quick() { 8 } else { 16 };
-    let n = rep.n(150, 3000);
+    let n = rep.n(400, 4000);
     rep.run_prop(
         "threads",
         "one Arc<Predictor> (tags + score storing) shared by 8 (quick) / 16 (thorough) threads, \
